@@ -9,10 +9,18 @@ run:      kcore_bu/kcore_bd/score_wu (peel=False and peel=True) for all consecut
           half-integer grid of s) and kcoreness_centrality_bu/_bd on every model graph
           (TLC-enumerated; weighted: every weighting of every support) and on seeded random
           larger graphs (n <= 10: G(n,p), trees with cliques, isolated nodes).
+          Scale regimes: (a) near-threshold inputs of score_wu - two-level dyadic weights
+          B*2^gap + E (E a few units, 1 ulp .. 1e-7 relative), bounds on / a hair beside an
+          exact strength, the whole input scaled by 2^scale; everything exact in binary64 and
+          judged lexicographically on integers (KCore.tla "two-level weights", equivalence with
+          CoreSet model-checked by MC_KCoreLex); (b) large inputs (130..300 nodes: degrees,
+          strengths, sizes, coreness and peel levels beyond 127 / 255).
 validate: spec/Trace_KCore.tla judges every record.
 """
 import itertools
+import math
 import random
+from fractions import Fraction
 
 import numpy as np
 
@@ -57,8 +65,82 @@ def _bound(job, b2):
     return {"int": int, "float": float, "np": np.int64}[kt](b2 // 2)
 
 
+def _near_floats(job):
+    """the float64 matrix and bounds of a near-threshold job; every value is an integer below 2^53
+    times a power of two, i.e. exact (MachineryError otherwise: the harness would be at fault)"""
+    gap, unit = job["gap"], job["scale"] - job["gap"]
+    B, E = job["A"], job["E"]
+    n = len(B)
+    T = [[(B[i][j] << gap) + E[i][j] for j in range(n)] for i in range(n)]
+    N2 = [(b2 << gap) + e2 for b2, e2 in zip(job["b2s"], job["e2s"])]
+    top = max([sum(abs(T[i][j]) for i in range(n)) for j in range(n)] + [0])
+    if top >= 2 ** 53 or any(abs(v) >= 2 ** 53 for v in N2):
+        raise core.MachineryError("near-threshold input is not exact in binary64")
+    W = np.array([[math.ldexp(T[i][j], unit) for j in range(n)] for i in range(n)], dtype=float).reshape(n, n)
+    ss = [math.ldexp(v, unit - 1) for v in N2]
+    if any(Fraction(float(W[i, j])) != Fraction(T[i][j]) * Fraction(2) ** unit for i in range(n) for j in range(n)) \
+            or any(Fraction(x) != Fraction(v) * Fraction(2) ** (unit - 1) for x, v in zip(ss, N2)) \
+            or any(Fraction(float(W[:, j].sum())) != sum(T[i][j] for i in range(n)) * Fraction(2) ** unit
+                   for j in range(n)):
+        raise core.MachineryError("near-threshold input is not exact in binary64")
+    return W, ss
+
+
+def _split2(x, gap, unit):
+    """an output entry as the integer pair (a, e) with x = (a*2^gap + e) * 2^unit, |e| <= 2^(gap-1)
+    - lossless; ValueError when x is no multiple of the unit or e / a do not fit (such an entry
+    is neither an input entry nor 0)"""
+    x = float(x)
+    if x == 0.0:
+        return 0, 0
+    if not math.isfinite(x):
+        raise ValueError("not finite: %r" % x)
+    fr = Fraction(x) / Fraction(2) ** unit
+    if fr.denominator != 1:
+        raise ValueError("not a multiple of the weight unit: %r" % x)
+    t = fr.numerator
+    a = (t + (1 << (gap - 1))) >> gap
+    e = t - (a << gap)
+    if abs(e) >= 10 ** 8 or abs(a) >= encode.INF:
+        raise ValueError("not a two-level weight: %r" % x)
+    return a, e
+
+
+def exec_near(job):
+    """score_wu on a near-threshold input (record kind 'wux', Trace_KCore!JudgeCoreX)"""
+    import bct
+    n = len(job["A"])
+    rec = dict(fn="score_wu", kind="wux", n=n, A=job["A"], E=job["E"], gap=job["gap"],
+               raised="", malformed="", b2s=list(job["b2s"]), e2s=list(job["e2s"]),
+               cores=[], coresE=[], sizes=[])
+    W, ss = _near_floats(job)
+    try:
+        outs = []
+        for x in ss:
+            bound = np.float64(x) if job.get("ktype") == "np" else x
+            outs.append(bct.score_wu(rc.as_variant(W, "float64", job.get("layout", "C")), bound))
+    except Exception as e:
+        rec["raised"] = encode.exc_name(e)
+        return rec
+    try:
+        unit = job["scale"] - job["gap"]
+        for o in outs:
+            M = np.asarray(o[0])
+            if M.ndim != 2:
+                raise ValueError("not a matrix")
+            pairs = [[_split2(v, job["gap"], unit) for v in row] for row in M]
+            rec["cores"].append([[p[0] for p in row] for row in pairs])
+            rec["coresE"].append([[p[1] for p in row] for row in pairs])
+            rec["sizes"].append(encode.e_int(o[1]))
+    except ValueError as e:
+        rec["malformed"] = str(e)
+    return rec
+
+
 def exec_job(job):
     import bct
+    if job.get("near"):
+        return exec_near(job)
     A0 = np.array(job["A"], dtype=float)
     rec = _blank(job, A0)
     fn = getattr(bct, job["fn"])
@@ -175,6 +257,149 @@ def job_of(rng, fn, src, A, b2s=None, p_plain=1.0):
     return j
 
 
+# ---- scale regime (a): near-threshold inputs of score_wu
+def near_job(rng, src="near"):
+    """two-level weights on a small support: base weights B from a tie-rich set, a perturbation E
+    of a few units on some connections (both signs), now and then a connection that consists of
+    a perturbation only; unit of E = 2^-gap base units with gap from the largest that keeps every
+    sum exact (the bound next to the largest strength is then exactly 1 ulp away) down to 21
+    (5e-7 relative); the whole input times 2^scale.  Bounds: for the strengths inside the whole
+    graph and inside the sets left by peeling, the exact value, a few units beside it on both
+    sides, the base value and the half base units around it."""
+    shape = rng.choice(["gnp", "gnp", "tree+cliques", "structured", "structured"])
+    if shape == "gnp":
+        n = rng.randint(4, 9)
+        S = inputs.rand_graph(rng, n, rng.choice([0.3, 0.5, 0.7, 0.9]), und=True)
+    elif shape == "structured":
+        _, n, edges = rc.structured_support(rng, 4, 9)
+        S = inputs.mat_from_edges(n, edges, und=True)
+    else:
+        n = rng.randint(5, 9)
+        S = tree_with_cliques(rng, n, True)
+    ws = rng.choice([[1], [1], [2], [3], [1, 2], [1, 2, 3, 4], [2, 4], [5, 7]])
+    pe = rng.choice([0.0, 0.3, 0.6, 1.0])
+    emax = rng.choice([1, 1, 2, 3, 3, 40])
+    B = [[0] * n for _ in range(n)]
+    E = [[0] * n for _ in range(n)]
+    for i in range(n):
+        for j in range(i + 1, n):
+            if S[i, j]:
+                B[i][j] = B[j][i] = rng.choice(ws)
+                if rng.random() < pe:
+                    E[i][j] = E[j][i] = rng.choice([-1, 1]) * rng.randint(1, emax)
+            elif rng.random() < 0.06:                      # a connection far below every other
+                E[i][j] = E[j][i] = rng.randint(1, emax)
+    colB = max(max(sum(B[i][j] for i in range(n)) for j in range(n)), 1)
+    gapmax = 52 - colB.bit_length()
+    gap = min(gapmax, rng.choice([gapmax, gapmax, gapmax - 1, 44, 40, 37, 34, 30, 27, 24, 21]))
+    scale = rng.choice([0, 0, 0, 0, 1, -3, 8, -20, 33, -60, 60, -300, 300])
+
+    # bounds next to the strengths met while peeling (input choice only: the verdict is TLC's)
+    cand, alive = set(), set(range(n))
+    while alive:
+        st = {v: (sum(B[u][v] for u in alive), sum(E[u][v] for u in alive)) for v in alive}
+        cand.update(st.values())
+        low = min(st.values())
+        alive -= {v for v in alive if st[v] == low}
+    cand.discard((0, 0))
+    cand = sorted(cand)
+    if len(cand) > 4:
+        cand = sorted(rng.sample(cand, 4))
+    bounds = {(0, 0)}
+    for (a, e) in cand:
+        for d in (-2, -1, 0, 1, 2, rng.randint(3, 60), -rng.randint(3, 60)):
+            bounds.add((2 * a, 2 * e + d))
+        bounds.update([(2 * a, 0), (2 * a - 1, 0), (2 * a + 1, 0)])
+    bounds = sorted(b for b in bounds if (0, 0) <= b and b[0] <= 2 * colB + 1)
+    if len(bounds) > 16:
+        bounds = sorted(rng.sample(bounds, 16))
+    return dict(fn="score_wu", near=True, src=src, A=B, E=E, gap=gap, scale=scale,
+                b2s=[b[0] for b in bounds], e2s=[b[1] for b in bounds],
+                layout=rng.choice(["C", "C", "F", "T", "slice", "stride"]),
+                ktype=rng.choice(["float", "float", "np"]))
+
+
+# ---- scale regime (b): large inputs
+def _around(vals, top):
+    """bounds (plain, not doubled) next to the smallest, a middle and the largest of `vals`"""
+    v = sorted(vals)
+    picks = {0, 1, 2, v[0] - 1, v[0], v[0] + 1, v[len(v) // 4], v[len(v) // 2], v[len(v) // 2] + 1,
+             v[(3 * len(v)) // 4], v[-1], v[-1] + 1}
+    picks.update(v[0] + (q * (v[-1] - v[0])) // 8 for q in range(1, 8))
+    return sorted(k for k in picks if 0 <= k <= top)
+
+
+def big_jobs(rng, quick):
+    """130..300 nodes: degrees / strengths, core sizes, coreness values, peel rounds beyond 127 and
+    255 (where 8-bit counters wrap), judged by the same clauses (oracle: the set-based peeling)"""
+    jobs = []
+
+    def shuffled(A):
+        p = list(range(len(A)))
+        rng.shuffle(p)
+        return np.asarray(A)[np.ix_(p, p)]
+
+    def planted(n, p_in, p_out, und, wmax=1):
+        c = (3 * n) // 4
+        A = np.zeros((n, n))
+        for i in range(n):
+            for j in range(i + 1 if und else 0, n):
+                if i != j and rng.random() < (p_in if (i < c and j < c) else p_out):
+                    A[i, j] = rng.randint(1, wmax)
+                    if und:
+                        A[j, i] = A[i, j]
+        return shuffled(A)
+
+    def add(fn, src, A, ks=None):
+        j = job_of(rng, fn, src, A, None if ks is None else [2 * k for k in ks], p_plain=0.5)
+        jobs.append(j)
+
+    for rep in range(1 if quick else 3):
+        # a clique of m > 127 nodes with a path attached and isolated nodes: the (m-1)-core is the
+        # clique, its size and the coreness of its members exceed 127
+        m, tail, iso = rng.randint(129, 136), rng.randint(2, 4), rng.randint(0, 2)
+        n = m + tail + iso
+        A = np.zeros((n, n))
+        A[:m, :m] = 1 - np.eye(m)
+        for t in range(tail):
+            u, v = (m - 1 if t == 0 else m + t - 1), m + t
+            A[u, v] = A[v, u] = 1
+        A = shuffled(A)
+        add("kcore_bu", "big-clique+path", A, [0, 1, 2, 3, m - 2, m - 1, m, m + 1])
+        add("kcoreness_centrality_bu", "big-clique+path", A)
+        # dense G(n,p): degrees straddle 127 (n about 140) / in+out degrees straddle 127 and 255
+        # (a dense block and a sparser periphery, so that the cores do not collapse all at once)
+        n = rng.randint(140, 156)
+        A = planted(n, 0.96, 0.55, True)
+        add("kcore_bu", "big-dense", A, _around(A.sum(axis=0).astype(int).tolist(), n))
+        n = rng.choice([rng.randint(70, 80), rng.randint(134, 146)])
+        A = planted(n, 0.97, 0.6, False)
+        deg = (A.sum(axis=0) + A.sum(axis=1)).astype(int).tolist()
+        add("kcore_bd", "big-dense", A, _around(deg, 2 * n))
+        if not quick or rep == 0:
+            add("kcoreness_centrality_bd", "big-dense", A)
+        # a long path with a triangle at one end: peeled from the free end, > 127 rounds for k = 2
+        n = rng.randint(133, 140)
+        A = np.zeros((n, n))
+        for i in range(n - 1):
+            A[i, i + 1] = A[i + 1, i] = 1
+        for i in range(3):
+            for j in range(i):
+                A[i, j] = A[j, i] = 1
+        add("kcore_bu", "big-path", shuffled(A), [1, 2, 3])
+        # dense weighted: strengths beyond 255, core sizes beyond 127
+        n = rng.randint(130, 144)
+        A = planted(n, 0.9, 0.5, True, wmax=3)
+        st = A.sum(axis=0).astype(int).tolist()
+        j = job_of(rng, "score_wu", "big-dense", A, None, p_plain=0.5)
+        v = sorted(st)
+        j["b2s"] = sorted({0, 1, 2 * v[0] - 1, 2 * v[0], 2 * v[0] + 1, 2 * v[len(v) // 4], 2 * v[len(v) // 2],
+                           2 * v[len(v) // 2] + 1, 2 * v[(3 * len(v)) // 4], 2 * v[-1], 2 * v[-1] + 1}
+                          | {2 * v[0] + (q * (v[-1] - v[0])) // 4 for q in range(1, 8)})
+        jobs.append(j)
+    return jobs
+
+
 def build_jobs(ctx):
     rng = random.Random(ctx.seed)
     jobs = []
@@ -235,10 +460,20 @@ def build_jobs(ctx):
         else:
             jobs.append(job_of(rng, "kcore_" + kind, src, A, k_bounds(n, kind), p_plain=0.4))
             jobs.append(job_of(rng, "kcoreness_centrality_" + kind, src, A, p_plain=0.4))
+    # ---- scale regimes (own generator: the draws above stay what they were)
+    rng2 = random.Random("%s/C15-scale" % ctx.seed)
+    for t in range(250 if ctx.quick else 4000):
+        jobs.append(near_job(rng2))
+    jobs += big_jobs(rng2, ctx.quick)
     return jobs
 
 
 def what(job, rec, clause):
+    if job.get("near"):
+        return ("near-threshold: weight = (A*2^%d + E) * 2^%d, bound = (b2*2^%d + e2) * 2^%d; layout=%s src=%s "
+                "A=%s E=%s b2s=%s e2s=%s" % (job["gap"], job["scale"] - job["gap"], job["gap"],
+                                             job["scale"] - job["gap"] - 1, job.get("layout"), job.get("src"),
+                                             job["A"], job["E"], job["b2s"], job["e2s"]))
     return "n=%d dtype=%s layout=%s ktype=%s src=%s A=%s" % (
         rec.get("n", -1), job.get("dtype", "float64"), job.get("layout", "C"), job.get("ktype", "int"),
         job.get("src"), rec.get("A"))
@@ -250,8 +485,10 @@ def run(ctx):
     else:
         models = ["MC_KCore_bu_thorough.cfg", "MC_KCore_bd_thorough.cfg", "MC_KCore_wu_thorough.cfg",
                   "MC_KCore_wu_n5.cfg"]
-    for cfg in models:
-        ctx.mc("MC_KCore.tla", cfg)
+    # the equivalence proof for the two-level definitions runs beside the peeling models
+    lex = ["MC_KCoreLex.cfg"] if ctx.quick else ["MC_KCoreLex_n3e2.cfg", "MC_KCoreLex_thorough.cfg"]
+    ctx.parallel([lambda: [ctx.mc("MC_KCore.tla", cfg) for cfg in models],
+                  lambda: [ctx.mc("MC_KCoreLex.tla", cfg, workers=6) for cfg in lex]], width=2)
     jobs = build_jobs(ctx)
     # the peeling loops are `while True`: probe a spread of jobs first so that a tree on which
     # they do not terminate costs seconds, not (number of jobs x time-out)
@@ -283,19 +520,29 @@ def run(ctx):
                 "unequal components; single-value weight sets); a sample of the model inputs and most random "
                 "ones as another argument dtype (bool/int32/int64/float32 where the routine's domain allows), "
                 "memory layout (Fortran, transposed, window, strided) and bound type (int, float, numpy "
-                "integer), all drawn from the seeded RNG. "
+                "integer), all drawn from the seeded RNG; scale regimes: %d near-threshold inputs of score_wu "
+                "(n in 4..9, two-level dyadic weights B*2^gap+E with gap 21..50, i.e. perturbations and bounds "
+                "1 ulp .. 5e-7 relative beside exact strengths on both sides, whole input times 2^-300..2^300, "
+                "exact in binary64, judged lexicographically on integers). "
                 "non-trivial = distinct (function, input) for which some bound > 0 leaves a core "
                 "that is neither empty nor all non-isolated nodes"
-                % (("3..5", "a sample of 1200") if ctx.quick else ("3..5 (sample of 6000 on 6)", "every one")))
+                % ((("3..5", "a sample of 1200") if ctx.quick else ("3..5 (sample of 6000 on 6)", "every one"))
+                   + (sum(1 for j in jobs if j.get("near")),)))
     for j, r in zip(jobs, recs):
         if j["src"] == "model" and j["fn"] == "kcore_bu" and len(r["A"]) == 4 and any(r["sizes"][1:]):
             ctx.add_sample("model-input", dict(job=j, record=r))
             break
-    ctx.add_sample("random-input", dict(job=jobs[-1], record=recs[-1]))
+    k = max(k for k, j in enumerate(jobs) if j["src"] != "near")
+    ctx.add_sample("random-input", dict(job=jobs[k], record=recs[k]))
+    ctx.add_sample("near-threshold-input", dict(job=jobs[-1], record=recs[-1]))
     ctx.assumptions += [
         "TLC evaluates the L0 definitions correctly",
         "inputs have an empty diagonal, 0/1 entries (kcore) or small non-negative integer weights "
         "(score_wu); s is a multiple of 1/2, so every comparison strength < s is exact in floats",
+        "near-threshold inputs: weights, bounds and every sum of weights are integers below 2^53 times one "
+        "power of two (checked per input), so the code's own sums carry no round-off and the exact verdict "
+        "'strength < s' is the lexicographic one TLC computes (MC_KCoreLex: equal to the L0 definition on the "
+        "materialised weights for every small instance)",
         "for n > 5 the oracle is the set-based peeling operator, proved equal to the subset "
         "enumeration by MC_KCore on all model inputs",
         "the size returned for bound 0 (documented as the number of non-isolated nodes) is not judged",
